@@ -146,15 +146,21 @@ class FS:
         if w != 'P':
             eng.oblige('assert', 'only the part path is ever opened for writing', st, z3.BoolVal(False), node)
         flags = args[1]
-        if not (isinstance(flags, SVal) and z3.eq(flags.t, OPENFLAGS)):
-            raise Unsupported('os.open flags are not the module open flags')
+        exclusive = isinstance(flags, SVal) and z3.eq(flags.t, OPENFLAGS)
         perms = args[2]
         if not isinstance(perms, SInt):
             raise Unsupported('os.open perms %r' % (perms,))
         out = []
         for side, s in eng.fork(st, st.ghost['ent_P'] != 0, 'part exists'):
-            if side:
+            if side and exclusive:
                 out.append((SExc('OSError'), s))        # O_EXCL: a pre-existing part file is never reused
+            elif side:
+                # flags other than the module's O_CREAT|O_EXCL word: the open may succeed on the EXISTING file, without
+                # truncating it (its old bytes stay in place)
+                s2 = s.copy()
+                s2.ghost['fd_ino'] = s2.ghost['ent_P']
+                out.append((SInt(s2.fresh.const('fd', z3.IntSort())), s2))
+                out.append(self.may_fail(s, 'os.open'))
             else:
                 s2 = s.copy()
                 ino = s2.ghost['next_ino']
